@@ -128,6 +128,16 @@ class Parser:
         self.i += 1
         return x
 
+    def zmap(self):
+        assert self.next() == "{"
+        m = {}
+        while True:
+            x = self.next()
+            if x == "}":
+                return m
+            a, b = x.split(":")
+            m[int(a)] = int(b)
+
     def effs(self):
         assert self.next() == "["
         out = []
@@ -225,6 +235,12 @@ def parse_op(line):
     if k in ("pair", "zip", "dependon", "mapref", "mapold", "set", "update", "modify", "replace", "replacewith",
              "unsubscribe", "mapexport"):
         return (k, int(p.next()), int(p.next()))
+    if k == "varmap":
+        return (k, p.zmap())
+    if k == "setmap":
+        return (k, int(p.next()), p.zmap())
+    if k in ("permapi", "permapiom"):
+        return ("permapi", int(p.next()), p.next(), p.bindfn())
     if k == "adddep":
         return (k, int(p.next()), int(p.next()), int(p.next()), p.next() == "1")
     if k == "rmdep":
